@@ -26,6 +26,8 @@ func runC13(c *Ctx) {
 	ruleAuthenticatorsReadOnly(c, "R13.h")
 	ruleGoroutineOwnsItsIteration(c, "R13.i")
 	rulePresenceNotContent(c, "R13.j")
+	ruleRecycledObjectsReset(c, "R13.p")
+	ruleManagerConsultsAll(c, "R13.k")
 	c.assume("applications do not mutate *Conn values obtained from Server.Conns()")
 }
 
@@ -206,28 +208,10 @@ func ruleEffectScope(c *Ctx) {
 					bad++
 					c.bad(rid, fmt.Sprintf("%s/mapupdate:%s.%s", c.P.key(fn), owner, f), c.P.instrPos(x), "a request handler path updates the server-wide map "+owner+"."+f)
 				}
-			case *ssa.Call:
-				if nme := calleeName(x.Common()); strings.HasPrefix(nme, "(*sync.Pool).") {
-					bad++
-					c.bad(rid, fmt.Sprintf("%s/pool:%s", c.P.key(fn), nme), c.P.instrPos(x), "a pooled object is used on the request path: what it still holds from another connection is not reset by construction")
-				}
 			}
 		})
 	}
-	// pooled connection objects anywhere in the framework
-	for _, fn := range c.P.RepoFuncs(pkgRedis) {
-		if reach[fn] {
-			continue
-		}
-		allInstrs(fn, func(ins ssa.Instruction) {
-			if call, ok := ins.(*ssa.Call); ok {
-				if nme := calleeName(call.Common()); strings.HasPrefix(nme, "(*sync.Pool).") {
-					bad++
-					c.bad(rid, fmt.Sprintf("%s/pool:%s", c.P.key(fn), nme), c.P.instrPos(call), "a sync.Pool is used in the framework: objects recycled across connections carry the previous owner's state unless every field is reset")
-				}
-			}
-		})
-	}
+	// objects recycled through a sync.Pool: decided field by field by ruleRecycledObjectsReset (R13.p)
 	c.count("stores-on-request-path", n)
 	c.floor("stores-on-request-path", 20)
 	if bad == 0 {
